@@ -32,6 +32,7 @@ type W struct {
 }
 
 var names = []string{"Alpha", "Beta", "Gamma", "Delta", "Eps", "Zeta"}
+
 // autoloadable fixture classes: directly under the registered namespace and in
 // (nested) sub-namespaces, whose tree nodes the class path manager creates
 // lazily on first resolution
@@ -518,7 +519,7 @@ func classify(h []porcupine.Operation) string {
 }
 
 var prop = &hx.Prop{
-	ID: "C10", Gen: gen, Decode: decode, Exec: exec, Shrink: shrink, FreshProcessOnly: false,
+	ID: "C10", Gen: gen, Decode: decode, Focus: focus, Exec: exec, Shrink: shrink, FreshProcessOnly: false,
 	Components: map[string]string{
 		"runtime.VM registries (AddClass/AddInterface/AddFunc/Get*/LoadPkg/SetConstant/GetConstant/EnsureGlobalZVal/php file cache/AllClasses/AllFuncs/GetOrLoadClass)": "real (instrumented copy of /repo, -race build)",
 		"parser + class path manager (autoload of fixture classes)": "real",
